@@ -22,7 +22,8 @@ SHAPES = list(gen.HEXAGONS)
 def make(task):
     sd, shape, axis, dims, nsym = task[:5]
     cellform, second = (task[5], task[6]) if len(task) > 5 else ('planes', False)
-    return gen.hex_deck(random.Random(sd), shape=shape, axis=axis, dims=dims, nsym=nsym, cellform=cellform, second=second)
+    oblique = task[7] if len(task) > 7 else False
+    return gen.hex_deck(random.Random(sd), shape=shape, axis=axis, dims=dims, nsym=nsym, cellform=cellform, second=second, oblique=oblique)
 
 
 def worker(task):
@@ -46,6 +47,9 @@ def tasks_for(tier):
     # prism axis that is not a coordinate axis (rational orthonormal frame, tilted in the yz plane)
     for i in range(2 if tier == 'quick' else 40):
         out.append((base + 700 + 2 * i, SHAPES[(2 * i) % len(SHAPES)], 't', 2 if tier == 'quick' else 2 + (i % 2), 1, 'planes', False))
+    # oblique prisms: eight planes whose end planes are not orthogonal to the prism axis
+    for i in range(3 if tier == 'quick' else 40):
+        out.append((base + 900 + i, SHAPES[i % len(SHAPES)], 'zxy'[i % 3], 3, 1, 'planes', False, 'u' if i % 2 == 0 else 'uv'))
     return out
 
 
@@ -59,7 +63,7 @@ def run(tier):
                        'equality of the written volumes with the union of the reference hexagonal elements, point symbolic.')
     rep.bounds = {'decks': len(tasks), 'hexagons': SHAPES, 'axes': 'x, y, z and one tilted axis (0, -4/5, 3/5)', 'elements_per_lattice': '<= 6',
                   'symbolic': 'at most 2 of: centre, scale, axial bounds, fill displacement; the point',
-                  'cell forms': 'six or eight planes; the macrobody RHP/HEX with 15 entries (concrete size, symbolic place); a second lattice with the same side directions',
+                  'cell forms': 'six or eight planes (end planes orthogonal to the axis, or oblique with normal (1/4, 0 or -1/2, 1) in the prism frame); the macrobody RHP/HEX with 15 entries (concrete size, symbolic place); a second lattice with the same side directions',
                   'outside': ['exactly regular hexagons (irrational normals)', 'RHP with 9 entries as a lattice cell (rotation by 60 degrees: irrational)', 'tilted prism axes other than the one listed', 'symbolic side directions']}
     rep.assumptions = ['MCNP hexagonal indexing: [1,0,0] across the first-listed plane, [0,1,0] across the third-listed, [0,0,1] across the seventh']
     rep.cov['rule'] = 'program = one generated deck; case = (deck, path, label); distinct = distinct (deck, path condition)'
